@@ -53,14 +53,32 @@ pub fn offset(o: &Off) -> Offset {
     Offset::new(cursor(o.begin), cursor(o.end))
 }
 
+/// simple selectors through the constructor functions
+fn selector_fn(s: &SelReq) -> SelectorBuilder<'static> {
+    match s {
+        SelReq::Text(r, o) => SelectorBuilder::textselector(bi::<TextResource>(r), offset(o)),
+        SelReq::Ann(a, o) => SelectorBuilder::annotationselector(bi::<Annotation>(a), o.as_ref().map(offset)),
+        SelReq::Res(r) => SelectorBuilder::resourceselector(bi::<TextResource>(r)),
+        SelReq::Set(s) => SelectorBuilder::datasetselector(bi::<AnnotationDataSet>(s)),
+        SelReq::Key(s, k) => SelectorBuilder::datakeyselector(bi::<AnnotationDataSet>(s), bi::<DataKey>(k)),
+        SelReq::Data(s, d) => SelectorBuilder::annotationdataselector(bi::<AnnotationDataSet>(s), bi::<AnnotationData>(d)),
+        other => selector(other),
+    }
+}
+
 pub fn selector(s: &SelReq) -> SelectorBuilder<'static> {
     match s {
+        // complex selectors with an even number of members (and simple ones inside them) go through the constructor functions
+        // of SelectorBuilder, the others through the enum variants: both are public ways to say the same thing
         SelReq::Text(r, o) => SelectorBuilder::TextSelector(bi(r), offset(o)),
         SelReq::Ann(a, o) => SelectorBuilder::AnnotationSelector(bi(a), o.as_ref().map(offset)),
         SelReq::Res(r) => SelectorBuilder::ResourceSelector(bi(r)),
         SelReq::Set(s) => SelectorBuilder::DataSetSelector(bi(s)),
         SelReq::Key(s, k) => SelectorBuilder::DataKeySelector(bi(s), bi(k)),
         SelReq::Data(s, d) => SelectorBuilder::AnnotationDataSelector(bi(s), bi(d)),
+        SelReq::Multi(v) if v.len() % 2 == 0 => SelectorBuilder::multiselector(v.iter().map(selector_fn)),
+        SelReq::Composite(v) if v.len() % 2 == 0 => SelectorBuilder::compositeselector(v.iter().map(selector_fn)),
+        SelReq::Directional(v) if v.len() % 2 == 0 => SelectorBuilder::directionalselector(v.iter().map(selector_fn)),
         SelReq::Multi(v) => SelectorBuilder::MultiSelector(v.iter().map(selector).collect()),
         SelReq::Composite(v) => SelectorBuilder::CompositeSelector(v.iter().map(selector).collect()),
         SelReq::Directional(v) => SelectorBuilder::DirectionalSelector(v.iter().map(selector).collect()),
